@@ -6,7 +6,8 @@ Shape (C): full Cartesian product
     fixed pixels [inside the summed set of some positions, excluded from others] / every masked pixel / every pixel
     where data is non-finite / every zero-weight pixel / every sigma-clipped pixel / every pixel outside all summed
     sets) x sigma clip (None, 3s/1it, 1.5s/5it) x
-    sum_method (exact, center, subpixel 5) x local_bkg (None, scalar, per position) x
+    (sum_method, subpixels) in {exact, center, subpixel} x {1, 2, 5} (9 values: the option is given for EVERY method and
+    must be ignored for exact and center) x local_bkg (None, scalar, per position) x
     position list (interior generic, integer centre, pixel corner, straddling each of the four edges,
     image corner, fully outside) -- as one multi-position aperture and, on a stated sub-product, as
     scalar apertures.
@@ -24,6 +25,11 @@ Oracle (plain Python, pixel by pixel; weights registered in the image by the har
          error at a masked / non-finite-data / zero-weight / clipped pixel must not change sum_err, and a NaN/inf
          error at a pixel of T gives what the quadrature sum gives (NaN resp. inf), as aperture_photometry does.
     S (resp. T) empty or box outside the image: NaN, never a number, never an exception.
+    The sum-method weights of the oracle are those of to_mask(method) for exact / center (the subpixels option is NOT
+    passed on: it is documented to be ignored there) and of to_mask('subpixel', subpixels=n) for subpixel.
+    Literal clause of the statement (configurations without sigma clip, T not empty): sum, sum_err, sum_aper_area equal
+    aperture_photometry / area_overlap called with the same (method, subpixels), the same error map and the total mask
+    (mask | non-finite data), minus local_bkg x area for the sum.
 """
 import math
 
@@ -34,16 +40,25 @@ from ..runner import Acc
 
 PROPERTY = 'C16'
 LEVEL = 'exploration'
-RULE = ('full Cartesian product aperture spec x data variant x mask x error condition x sigma_clip x sum_method x local_bkg '
+RULE = ('full Cartesian product aperture spec x data variant x mask x error condition x sigma_clip x (sum_method x subpixels) '
+        'x local_bkg, where (sum_method, subpixels) is itself the full product {exact, center, subpixel} x {1, 2, 5}: the '
+        'subpixels option is passed for every method and the oracle weights of exact / center do not depend on it '
         '(error conditions whose map is identical to the finite one by construction -- "at masked pixels" with mask=None, '
         '"where data is non-finite" on finite data, "at clipped pixels" without sigma clip -- are not repeated), each '
         'configuration built as one ApertureStats over the whole position list (and as scalar apertures on the sub-product '
         'mask=None); one evaluation = one (configuration, position) with every listed property compared with the direct '
-        'computation; non-trivial when the centre-method pixel set S or the sum-method set T of that position is not empty '
+        'computation (the properties that by the statement do not depend on the sum method -- everything except sum, sum_err, '
+        'sum_aper_area -- are read for subpixels=5 in every configuration and for subpixels 1, 2 on the sub-product '
+        'error=finite; the three sum properties are read in every configuration); configurations without sigma clip are in '
+        'addition compared literally with aperture_photometry / area_overlap for the same (method, subpixels); non-trivial when the centre-method pixel set S or the sum-method set T of that position is not empty '
         '(measured from the registered weights); counters sum_err:* count the (configuration, position) cases whose bounding '
         'box really contains a non-finite error value at an excluded pixel / at a pixel of T; cases are distinct by '
         'construction (distinct product indices)')
 ASSUMPTIONS = ['aperture weights / bbox from to_mask() are correct (C01); their registration in the image is done by the harness',
+               'the reference weights of sum_method exact / center are to_mask(method) without a subpixels argument, those of '
+               'subpixel are to_mask("subpixel", subpixels=n) (n = 1 is registered on its own, not copied from center)',
+               'the literal comparison with aperture_photometry / area_overlap (C02 vouches for those) uses linearity for the '
+               'local background: sum(w (d - b)) = aperture_sum - b * area_overlap',
                'astropy.stats.SigmaClip applied to a 1-D array of values is trusted (it is re-applied independently to the '
                'reference pixel set, in the same row-major order)',
                'one 7x8 image per variant (thorough: plus a 5x9 image); one distortion-free TAN WCS for sky apertures',
@@ -54,7 +69,11 @@ ASSUMPTIONS = ['aperture weights / bbox from to_mask() are correct (C01); their 
                'shape values follow the documented SourceExtractor regularisation of thin covariances; decisions within '
                '1e-9 of its thresholds are accepted either way']
 
-METHODS = [('exact', 5), ('center', 5), ('subpixel', 5)]
+SUM_METHODS = ['exact', 'center', 'subpixel']
+SUBPIXELS = [5, 1, 2]           # the default first (the axis of the earlier, three-valued version of this check), then 1, 2
+# full product; subpixels is passed to ApertureStats for EVERY method (documented: ignored unless sum_method='subpixel')
+METHODS = [(m, sub) for sub in SUBPIXELS for m in SUM_METHODS]
+SUM_PROPS = ['sum', 'sum_err', 'sum_aper_area']
 CLIPS = [None, [3.0, 1], [1.5, 5]]
 LBKG = ['none', 'scalar', 'per']
 MASKS = ['none', 'pixel', 'block']
@@ -177,11 +196,18 @@ class ApCtx:
         self.pix = pix
         self.img = images(self.shape, seed)
         self.reg = {}
+        self.scache = {}
         for m, sub in METHODS:
-            mk = pix.to_mask(method=m, subpixels=sub)
+            # exact / center: the option is not handed to the reference (it must not matter)
+            mk = pix.to_mask(method=m, subpixels=sub) if m == 'subpixel' else pix.to_mask(method=m)
             mk = [mk] if scalar_index is not None else mk
-            self.reg[m] = [R.register(x, self.shape) for x in mk]
+            self.reg[(m, sub)] = [R.register(x, self.shape) for x in mk]
+        self.reg['center'] = self.reg[('center', 5)]
         self.cls = [R.posclass(box, self.shape) for box, _ in self.reg['center']]
+
+
+def mkey(cfg):
+    return (cfg['sum_method'], cfg.get('subpixels', 5))
 
 
 def fixed_bad_pixels(shape):
@@ -214,7 +240,7 @@ def error_map(ctx, cfg, exs):
         bad = [p for p in allpix if not np.isfinite(d[p])]
     elif kind == 'nf-zero-weight':
         nonzero = set()
-        for _, wl in ctx.reg[cfg['sum_method']]:
+        for _, wl in ctx.reg[mkey(cfg)]:
             if wl is not None:
                 nonzero |= {(iy, ix) for iy, ix, w in wl if w != 0}
         bad = [p for p in allpix if p not in nonzero]
@@ -243,6 +269,12 @@ def expected(ctx, j, cfg):
     data = ctx.img[cfg['variant']]
     mask = make_mask(cfg['mask'], ctx.shape)
     lb = {'none': 0.0, 'scalar': 0.7, 'per': 0.05 + 0.1 * k}[cfg['local_bkg']]
+    # the centre-method part does not depend on (sum_method, subpixels, error): computed once per remaining axes
+    ckey = (j, cfg['variant'], cfg['mask'], None if cfg['clip'] is None else tuple(cfg['clip']), cfg['local_bkg'])
+    if ckey in ctx.scache:
+        out = dict(ctx.scache[ckey])
+        out['exp'] = dict(out['exp'])
+        return expected_T(ctx, j, cfg, out, data, mask, lb)
     out = {'S': [], 'T': [], 'Tpre': [], 'ambiguous_weight': False}
 
     def usable(iy, ix):
@@ -272,8 +304,23 @@ def expected(ctx, j, cfg):
             exp['xcentroid'], exp['ycentroid'] = mo['xc'], mo['yc']
             out['covs'] = R.regularised_covariances(mo['cxx'], mo['cxy'], mo['cyy'])
             out['rawcov'] = (mo['cxx'], mo['cxy'], mo['cyy'])
+    out['exp'] = exp
+    ctx.scache[ckey] = out
+    out = dict(out)
+    out['exp'] = dict(exp)
+    return expected_T(ctx, j, cfg, out, data, mask, lb)
+
+
+def expected_T(ctx, j, cfg, out, data, mask, lb):
+    """adds the sum-method set T and the sums over it to the (copied) centre-method part"""
+    exp = out['exp']
+
+    def usable(iy, ix):
+        d = data[iy, ix]
+        return bool(np.isfinite(d)) and not (mask is not None and mask[iy, ix])
+
     # sum-method set
-    box, wl = ctx.reg[cfg['sum_method']][j]
+    box, wl = ctx.reg[mkey(cfg)][j]
     T = []
     if wl is not None:
         if any(0 < abs(w) < 1e-12 for _, _, w in wl):
@@ -302,7 +349,7 @@ def expected_sum_err(ctx, j, cfg, ex, err):
     T = ex['T']
     if T:
         ex['exp']['sum_err'] = math.sqrt(math.fsum(w * float(err[iy, ix]) ** 2 for iy, ix, w, _ in T))
-    _, wl = ctx.reg[cfg['sum_method']][j]
+    _, wl = ctx.reg[mkey(cfg)][j]
     if wl is not None:
         inT = {(iy, ix) for iy, ix, _, _ in T}
         for iy, ix, w in wl:
@@ -327,7 +374,7 @@ def build(ctx, cfg, err):
           'per': (np.array([0.05 + 0.1 * k for k in range(npos)]) if ctx.scalar_index is None
                   else 0.05 + 0.1 * ctx.scalar_index)}[cfg['local_bkg']]
     clip = None if cfg['clip'] is None else SigmaClip(sigma=cfg['clip'][0], maxiters=cfg['clip'][1])
-    m, sub = [x for x in METHODS if x[0] == cfg['sum_method']][0]
+    m, sub = mkey(cfg)
     return ApertureStats(data, ctx.aper, error=err,
                          mask=make_mask(cfg['mask'], ctx.shape), wcs=ctx.wcs, sigma_clip=clip, sum_method=m,
                          subpixels=sub, local_bkg=lb)
@@ -347,8 +394,71 @@ def site_for(ctx, j, ex, prop, cfg):
     c = 'cut' if c.startswith('cut') else c
     tags = ('' if cfg['clip'] is None else ':clip') + ('' if cfg['local_bkg'] == 'none' else ':bkg')
     if grp == 'sum':
+        if cfg['sum_method'] != 'subpixel' and mkey(cfg)[1] != 5:
+            # a non-default subpixels value given together with a method that must ignore it: one site per method
+            return f"sum:subpixels-given-to-{cfg['sum_method']}" + (':empty' if not ex['T'] else '')
         tags += '' if cfg['sum_method'] == 'center' else ':weighted'
     return f'{grp}:{c}{tags}' + (':empty' if not (ex['T'] if grp == 'sum' else ex['S']) else '')
+
+
+def props_read(cfg):
+    """Every property for subpixels=5 (any error condition) and for subpixels 1, 2 with error='finite'; otherwise the
+    three properties that depend on the sum method."""
+    return PROPS if (mkey(cfg)[1] == 5 or cfg['error'] == 'finite') else SUM_PROPS
+
+
+def check_photometry(acc, ctx, cfg, err, got, exs, only=None):
+    """The statement taken literally: sum, sum_err, sum_aper_area equal aperture_photometry and area_overlap for the same
+    method (and the same subpixels option) whenever at least one unmasked pixel has positive weight.  Applied to the
+    configurations without sigma clip (aperture_photometry has none); non-finite data pixels are excluded through the
+    mask; local background by linearity: sum(w (d - b)) = aperture_sum - b * area."""
+    from photutils.aperture import aperture_photometry
+    if cfg['clip'] is not None:
+        return
+    data = ctx.img[cfg['variant']]
+    m, sub = mkey(cfg)
+    mask = make_mask(cfg['mask'], ctx.shape)
+    bad = ~np.isfinite(data)
+    if bad.any():
+        mask = bad if mask is None else (mask | bad)
+    try:
+        tbl = aperture_photometry(data, ctx.aper, error=err, mask=mask, method=m, subpixels=sub, wcs=ctx.wcs)
+        area = np.atleast_1d(np.asarray(ctx.pix.area_overlap(data, mask=mask, method=m, subpixels=sub), dtype=float))
+        ps = np.atleast_1d(np.asarray(getattr(tbl['aperture_sum'], 'value', tbl['aperture_sum']), dtype=float))
+        pe = None if err is None else np.atleast_1d(np.asarray(getattr(tbl['aperture_sum_err'], 'value',
+                                                                       tbl['aperture_sum_err']), dtype=float))
+    except Exception as exc:  # noqa: BLE001  (aperture_photometry itself is C02's subject)
+        acc.skip(f'literal comparison: aperture_photometry / area_overlap raised {type(exc).__name__}')
+        return
+    for j in range(len(ctx.idx)):
+        if only and ctx.idx[j] != only['pos_index']:
+            continue
+        ex = exs[j]
+        if not ex['T']:
+            continue            # the clause is stated for "at least one unmasked pixel with positive weight"
+        k = ctx.idx[j]
+        lb = {'none': 0.0, 'scalar': 0.7, 'per': 0.05 + 0.1 * k}[cfg['local_bkg']]
+        a = float(area[j])
+        want = {'sum': float(ps[j]) - lb * a, 'sum_aper_area': a}
+        # same tolerance rule as the direct oracle; sum |w d| <= sum |w (d - b)| + b * area
+        tol = {'sum': RT * (ex.get('sum_scale', 0.0) + 2 * lb * abs(a)) + 1e-13, 'sum_aper_area': RT * abs(a) + 1e-13}
+        if pe is not None:
+            if ex['err_ambiguous']:
+                acc.skip('sum_err with a non-finite error value where the weight is rounding noise (|w| < 1e-12)')
+            else:
+                want['sum_err'] = float(pe[j])
+                tol['sum_err'] = RT * (abs(want['sum_err']) if math.isfinite(want['sum_err']) else 0.0) + 1e-13
+        acc.counters['literal:positions-compared-with-aperture_photometry'] += 1
+        for p, e in want.items():
+            if p not in got or (only and only['prop'] in PROPS and p != only['prop']):
+                continue
+            g = float(got[p][j])
+            if not R.same(g, e, tol[p]):
+                tag = (':subpixels-given-to-' + m) if (m != 'subpixel' and sub != 5) else ''
+                acc.violation('equals-aperture_photometry', f"{p}:{'center' if m == 'center' else 'weighted'}{tag}",
+                              dict(cfg_case(ctx, cfg, j, p), literal=True), g, e,
+                              f'{p} of ApertureStats vs aperture_photometry / area_overlap(method={m!r}, subpixels={sub}) '
+                              f"with the total mask; local_bkg {lb}; |T|={len(ex['T'])}")
 
 
 def check_config(acc, ctx, cfg, only=None):
@@ -369,7 +479,7 @@ def check_config(acc, ctx, cfg, only=None):
     no_shapes = any(e.get('covs', 0) is None for e in exs)
     if no_shapes:
         acc.skip('shape values not read: covariance regularisation needs > 20000 steps for one position')
-    for p in PROPS:
+    for p in props_read(cfg):
         if only and p != only['prop'] and only['prop'] in PROPS:
             continue
         if no_shapes and p in SHAPES:
@@ -435,6 +545,7 @@ def check_config(acc, ctx, cfg, only=None):
                                                                                ('centroid' if 'centroid' in p else 'statistic')))
                 acc.violation(clause, site_for(ctx, j, ex, p, cfg), cfg_case(ctx, cfg, j, p), g, e,
                               f"{p}: |S|={len(ex['S'])} |T|={len(ex['T'])} box {ctx.reg['center'][j][0]} class {ctx.cls[j]}")
+    check_photometry(acc, ctx, cfg, err, got, exs, only)
     if not np.array_equal(data0, ctx.img[cfg['variant']], equal_nan=True):
         acc.violation('input-modified', 'data', cfg_case(ctx, cfg, 0, 'data'))
     if err is not None and not np.array_equal(err0, err, equal_nan=True):
@@ -519,10 +630,10 @@ def all_cfgs(variant, mask, errors=None):
         for clip in CLIPS:
             if not error_applies(error, variant, mask, clip):
                 continue
-            for sm, _ in METHODS:
+            for sm, sub in METHODS:
                 for lbk in LBKG:
                     out.append({'variant': variant, 'mask': mask, 'error': error, 'clip': clip, 'sum_method': sm,
-                                'local_bkg': lbk})
+                                'subpixels': sub, 'local_bkg': lbk})
     return out
 
 
@@ -560,7 +671,7 @@ def run_unit(unit, tier, seed):
     ctx = ApCtx(shape, spec, sky, seed)
     for ci, cfg in enumerate(all_cfgs(unit['variant'], unit['mask'])):
         r = check_config(acc, ctx, cfg)
-        if r is not None and ci % 18 == 5:
+        if r is not None and ci % 19 == 5:      # 19: coprime to the 27 (method, subpixels, local_bkg) block -> every combination
             check_table(acc, ctx, cfg, *r)
         if ci == 7 and unit['aper'] % 3 == 1 and unit['mask'] == 'pixel':
             acc.samples.append(cfg_case(ctx, cfg, (unit['aper'] * 5) % len(ctx.idx), '*'))
@@ -583,6 +694,7 @@ def check_table(acc, ctx, cfg, st, got):
 def replay(case, seed):
     acc = Acc()
     cfg = {k: case[k] for k in ('variant', 'mask', 'error', 'clip', 'sum_method', 'local_bkg')}
+    cfg['subpixels'] = case.get('subpixels', 5)  # replay files written before the subpixels axis existed: the default
     if isinstance(cfg['error'], bool):          # replay files written before the error axis was enlarged
         cfg['error'] = 'finite' if cfg['error'] else 'none'
     ctx = ApCtx(tuple(case['shape']), case['aper'], case['sky'], seed,
@@ -600,7 +712,12 @@ def describe(tier, seed):
                          'error_nonfinite_values': 'NaN, +inf, -inf cycled by pixel index (iy*nx+ix) % 3; nf-fixed: '
                          + repr([(iy, ix, str(v)) for iy, ix, v in fixed_bad_pixels(image_shapes(tier)[0])]),
                          'sigma_clip': CLIPS,
-                         'sum_method': [list(m) for m in METHODS], 'local_bkg': LBKG, 'properties': PROPS},
+                         'sum_method x subpixels': [list(m) for m in METHODS],
+                         'subpixels_note': 'passed to ApertureStats (and to aperture_photometry / area_overlap in the literal '
+                                           'clause) for every method; reference weights of exact / center ignore it',
+                         'local_bkg': LBKG, 'properties': PROPS,
+                         'properties_read': 'all for subpixels=5 and for error=finite; sum, sum_err, sum_aper_area otherwise',
+                         'literal_clause': 'every configuration without sigma clip, positions with T not empty'},
             'bound': {'units': len(plan(tier, seed)),
                       'configs_per_unit': {f'{v}/{m}': len(all_cfgs(v, m)) for v in VARIANTS for m in MASKS},
                       'error_conditions_not_repeated': 'nf-masked with mask none, nf-data with finite data, nf-clipped without '
